@@ -55,20 +55,23 @@ Proof. intros [H|H]; [left|right]; apply has_prefix_app; exact H. Qed.
 Lemma pfx_not_record : ~ pfx clean_storage_key.
 Proof. intros [H|H]; vm_compute in H; discriminate. Qed.
 
+(** every storage call appends exactly one event of its own kind, whatever the fault plan decides
+    (robust against new fault classes in [Clean.Model]: all branches are [logged] states) *)
+Ltac branches :=
+  repeat match goal with
+         | |- context [if ?c then _ else _] => destruct c
+         | |- context [match ?x with _ => _ end] => destruct x
+         end.
 Lemma do_load_w e k s : pfx k -> wext s (snd (do_load e k s)).
 Proof.
-  intros Hk. unfold do_load. destruct (faulty e s); [apply wext_one; [reflexivity|discriminate|auto]|].
-  destruct (lookup (sto s) k) as [[v c|]|]; try destruct (is_dir (sto s) k); cbn [snd];
-    apply wext_one; try reflexivity; try discriminate; auto.
+  intros Hk. unfold do_load. branches; cbn [snd]; apply wext_one; try reflexivity; try discriminate; auto.
 Qed.
 Lemma do_list_w e k s : wext s (snd (do_list e k s)).
-Proof. unfold do_list. destruct (faulty e s); cbn [snd]; apply wext_one; try reflexivity; discriminate. Qed.
+Proof. unfold do_list. branches; cbn [snd]; apply wext_one; try reflexivity; discriminate. Qed.
 Lemma do_stat_w e k s : wext s (snd (do_stat e k s)).
-Proof. unfold do_stat. destruct (faulty e s); cbn [snd]; apply wext_one; try reflexivity; discriminate. Qed.
+Proof. unfold do_stat. branches; cbn [snd]; apply wext_one; try reflexivity; discriminate. Qed.
 Lemma do_delete_w e k s : wext s (snd (do_delete e k s)).
-Proof.
-  unfold do_delete. destruct (faulty e s); [|destruct (efaulty e s)]; cbn [snd]; apply wext_one; try reflexivity; discriminate.
-Qed.
+Proof. unfold do_delete. branches; cbn [snd]; apply wext_one; try reflexivity; discriminate. Qed.
 Lemma do_list_children e k s ks s1 : do_list e k s = (Some ks, s1) -> pfx k -> Forall pfx ks.
 Proof.
   intros D Hk. destruct (do_list_spec _ _ _ _ _ D) as [_ H]. pose proof (list_pure_child _ _ _ _ (H ks eq_refl)) as C.
@@ -262,7 +265,9 @@ Qed.
 
 (** the configuration of a CleanStorage request: program [PClean iv], lock key [lk] (the class of
     "storage_clean"); the other fields are not used by [PClean] *)
-Definition ccfg (iv : bool) (lk : nat) : I.tcfg := I.TCfg (I.PClean iv) lk 0 0 0 false false false false.
+Definition ccfg (iv : bool) (lk : nat) : I.tcfg :=
+  {| I.c_prog := I.PClean iv; I.c_lk := lk; I.c_pk := 0%nat; I.c_vk := 0%nat; I.c_idn := 0%nat;
+     I.c_reuse := false; I.c_chk := false; I.c_force := false; I.c_issdue := false |}.
 
 (** the projection of one call of the cleaner to the operations the Issuance LTS shows for it
     (Issuance splits Lock into the call and the acquisition) *)
@@ -295,14 +300,16 @@ Definition res_of (r : result) : I.result := match r with RNil => I.ROk | _ => I
 
 (** explicit thread states of a [PClean] request ([fl] = a fault was injected, [rc] = recorded) *)
 Definition thq (iv : bool) (lk : nat) (fl rc : bool) (p : I.pc) : I.thread :=
-  I.Thread (ccfg iv lk) p I.OpClean false fl None None 0 None None rc.
+  {| I.cfg := ccfg iv lk; I.tpc := p; I.cur := I.OpClean; I.canc := false; I.flt := fl; I.lkey := None;
+     I.lcrt := None; I.nk := 0%nat; I.nc := None; I.seen := None; I.recd := rc |}.
 Definition th_at (iv : bool) (lk : nat) (p : I.pc) : I.thread := thq iv lk false true p.
 Definition L0 (f : I.fault) (b : bool) : I.label := I.Label 0 f b.
-Definition sh0 (st0 : I.skey -> option I.value) : I.shared := I.Shared st0 (fun _ => None) 0 0.
+Definition sh0 (st0 : I.skey -> option I.value) : I.shared :=
+  {| I.sto := st0; I.lks := fun _ => None; I.ncid := 0%nat; I.nkid := 0%nat |}.
 Definition shL (st0 : I.skey -> option I.value) (lk : nat) : I.shared :=
-  I.Shared st0 (I.lput (fun _ => None) lk (Some 0%nat)) 0 0.
+  {| I.sto := st0; I.lks := I.lput (fun _ => None) lk (Some 0%nat); I.ncid := 0%nat; I.nkid := 0%nat |}.
 Definition shU (st0 : I.skey -> option I.value) (lk : nat) : I.shared :=
-  I.Shared st0 (I.lput (I.lput (fun _ => None) lk (Some 0%nat)) lk None) 0 0.
+  {| I.sto := st0; I.lks := I.lput (I.lput (fun _ => None) lk (Some 0%nat)) lk None; I.ncid := 0%nat; I.nkid := 0%nat |}.
 Definition st_none : I.skey -> option I.value := fun _ => None.
 Definition st_recent : I.skey -> option I.value :=
   fun k => match k with I.SLast => Some (I.VLast true) | _ => None end.
@@ -503,6 +510,16 @@ Proof.
 Qed.
 
 
+(** the only fact about [do_delete] used below (whatever the fault classes of [Clean.Model] are) *)
+Lemma do_delete_shrinks e k s b s1 : do_delete e k s = (b, s1) ->
+  forall q, lookup (sto s1) q = lookup (sto s) q \/ (lookup (sto s1) q = None /\ covers k q = true).
+Proof.
+  intros D q. destruct (do_delete_spec _ _ _ _ _ D) as [-> | [-> | [keep ->]]]; [left; reflexivity| |].
+  - rewrite lookup_remove. destruct (covers k q); [right; split; reflexivity|left; reflexivity].
+  - rewrite lookup_removep. destruct (covers k q); cbn [andb]; [|left; reflexivity].
+    destruct (negb (memk q keep)); [right; split; reflexivity|left; reflexivity].
+Qed.
+
 (** * (ii) concurrent writers: what Clean's interference theorems assume, what Issuance's save does *)
 
 (** ** (ii.a) a generalisation of C18_interference_live_assets_untouched that allows a writer of the
@@ -616,6 +633,16 @@ Section SavedLive.
         * intros p Up v' c'. rewrite lookup_remove. destruct (covers k' p); [discriminate|exact (Han p Up v' c')].
   Qed.
 
+  (** a Delete (complete, partial, or failed) only removes keys it covers *)
+  Lemma ILs_shrink x s1 s2 :
+    (forall q, lookup s2 q = lookup s1 q \/ (lookup s2 q = None /\ covers x q = true)) ->
+    covers x a = false -> ILs s1 -> ILs s2.
+  Proof.
+    intros Hq Na [(v0 & c0 & L0 & Lc0) Han]. split.
+    - exists v0, c0. split; [|exact Lc0]. destruct (Hq a) as [E|[_ C]]; [rewrite E; exact L0|congruence].
+    - intros p Up v c. destruct (Hq p) as [E|[E _]]; [rewrite E; exact (Han p Up v c)|rewrite E; discriminate].
+  Qed.
+
   Lemma apply_at_ILs l i : (forall j f, In (j, f) l -> okf f) -> forall s, ILs s -> ILs (apply_at l i s).
   Proof.
     induction l as [|[j f] r IH]; intros Hl s Hs; [exact Hs|]. cbn [apply_at].
@@ -666,9 +693,8 @@ Section SavedLive.
       + destruct (do_stat e k0 s') as [r s2] eqn:D. injection Ex; intros <- _.
         rewrite (proj1 (do_stat_spec _ _ _ _ _ D)). exact HI'.
       + destruct (do_delete e k0 s') as [r s2] eqn:D. injection Ex; intros <- _.
-        destruct (do_delete_spec _ _ _ _ _ D) as [-> | ->]; [exact HI'|].
         pose proof (warranted_spares' h k0 Hh (Hd k0 eq_refl) spec_ext_crt crt_ext) as Na.
-        apply (okf_ILs (FDel k0)); [right; exact Na|exact HI'].
+        exact (ILs_shrink k0 _ _ (do_delete_shrinks _ _ _ _ _ D) Na HI').
       + destruct (do_store e k0 n s') as [r s2] eqn:D. injection Ex; intros <- _.
         destruct (do_store_spec _ _ _ _ _ _ D) as [(_ & -> & _)|(-> & _ & _)]; [exact HI'|].
         apply (okf_ILs (FPut k0 n)); [|exact HI']. right. cbn [fkey].
@@ -861,18 +887,26 @@ Definition node_of0 (v : I.value) : node :=
   end.
 Definition kn := kname site0.
 
-Definition env0 : env := Env [] [] None true.                       (* FileStorage flavour, no faults *)
-Definition opts0 : opts := Opts 0 false true (30 * day) (s2k "me"). (* certificates only, grace 30 d *)
+Definition env0 : env :=                                            (* FileStorage flavour, no faults *)
+  {| faults := []; efaults := []; cancel_at := None; lfe := true; pfaults := []; kill_at := None |}.
+Definition opts0 : opts :=                                          (* certificates only, grace 30 d *)
+  {| interval := 0; do_ocsp := false; do_certs := true; grace := 30 * day; inst := s2k "me" |}.
 Definition clk0 : nat -> Z := fun _ => Tn.
 Definition nolabels (n : nat) : list I.label := repeat (I.Label 0 I.FNone false) n.
 
 (** a fault-free ObtainCertSync of name 1, and a fault-free RenewCertSync of name 1 whose stored
     certificate is due; a forced renewal of name 2 whose stored certificate is live *)
-Definition ob_cfg : I.tcfg := I.TCfg (I.PObtain false) 1 1 1 1 false false false false.
-Definition rn_cfg : I.tcfg := I.TCfg (I.PRenew false) 1 1 1 1 false false false false.
+Definition ob_cfg : I.tcfg :=
+  {| I.c_prog := I.PObtain false; I.c_lk := 1%nat; I.c_pk := 1%nat; I.c_vk := 1%nat; I.c_idn := 1%nat;
+     I.c_reuse := false; I.c_chk := false; I.c_force := false; I.c_issdue := false |}.
+Definition rn_cfg : I.tcfg :=
+  {| I.c_prog := I.PRenew false; I.c_lk := 1%nat; I.c_pk := 1%nat; I.c_vk := 1%nat; I.c_idn := 1%nat;
+     I.c_reuse := false; I.c_chk := false; I.c_force := false; I.c_issdue := false |}.
 Definition rn_sto : I.skey -> option I.value :=
   I.sto_of_list [(I.SK 1 I.KKey, I.VKey 5); (I.SK 1 I.KCrt, I.VCrt (I.Cert 9 5 true)); (I.SK 1 I.KMeta, I.VMeta 9)].
-Definition fr_cfg : I.tcfg := I.TCfg (I.PRenew false) 2 2 2 2 false false true false.
+Definition fr_cfg : I.tcfg :=
+  {| I.c_prog := I.PRenew false; I.c_lk := 2%nat; I.c_pk := 2%nat; I.c_vk := 2%nat; I.c_idn := 2%nat;
+     I.c_reuse := false; I.c_chk := false; I.c_force := true; I.c_issdue := false |}.
 Definition fr_sto : I.skey -> option I.value :=
   I.sto_of_list [(I.SK 2 I.KKey, I.VKey 5); (I.SK 2 I.KCrt, I.VCrt (I.Cert 9 5 false)); (I.SK 2 I.KMeta, I.VMeta 9)].
 
